@@ -66,7 +66,13 @@ def check_typing(ctx, case):
     for r in (rots[:2] + rots[-2:]) if rots else []:
         plain = impl.SeqRecord(impl.Seq(gen.rot(wd, r)), id="fasta")
         try:
-            v = cls(plain).is_valid()
+            pe_ = cls(plain)
+            v = pe_.is_valid()
+            if v is True and base[0] == "valid" and (str(pe_.overhang_start()), str(pe_.overhang_end())) != (base[1], base[2]):
+                ctx.fail("{} on {!r} rotated by {}: through a plain SeqRecord the overhangs are {}/{}, through the circular "
+                         "record {}/{}".format(cls.__name__, wd, r, pe_.overhang_start(), pe_.overhang_end(), base[1], base[2]),
+                         dict(case, rots=[r]))
+                break
         except Exception as e:  # noqa
             v = "exc:" + type(e).__name__
         if v != (base[0] == "valid"):
